@@ -105,8 +105,15 @@ def design(ctx):
         runs += [("sync", CFG_C, 3, "TRUE"), ("split", CFG_A, 6, "FALSE")]
     violated = None
     for mode, c, depth, slim in runs:
+        cov = not quick and mode == "sync" and c is CFG_C
+        files = None
+        if cov:
+            # -coverage: the goal predicate "holefilter" (not part of the design layer) is stubbed, TLC's cost model exhausts the heap on it
+            text = open(os.path.join(vlib.SPEC, "TxPool.tla")).read()
+            a, b = text.index("\\* <goal-holefilter>"), text.index("\\* </goal-holefilter>")
+            files = {"TxPool.tla": text[:a] + "GoalHoleFilter(st, r) == FALSE\n" + text[b:]}
         m = ctx.tlc_must("TxPool", M_CFG % ALL_INV + consts(c, ops=depth, mode=mode, slim=slim), name="M_%s_%s" % (mode, c["name"]),
-                         timeout=2400, coverage=(not quick and mode == "sync" and c is CFG_C))  # (coverage on the larger CFG_B run exhausts the heap)
+                         timeout=2400, coverage=cov, files=files)
         if getattr(m, "zero_actions", None):
             ctx.cov["coverage_zero_actions"] = sorted(set(ctx.cov["coverage_zero_actions"]) | set(m.zero_actions))
         if m.violated:
